@@ -997,6 +997,10 @@ static int write_char(void *context, cif_value_tp *char_value, int allow_text) {
                          */
                         int prefix = (analysis.contains_text_delim || (fold && (analysis.max_semi_run > 0)));
 
+                        if (prefix && ((analysis.length_max + PREFIX_LENGTH) > LINE_LENGTH(context))) {
+                            /* the longest line does not fit together with the prefix */
+                            fold = CIF_TRUE;
+                        }
                         result = write_text(context, text, analysis.length, fold, prefix);
                     }
                     break;
@@ -1051,7 +1055,8 @@ static int write_text(void *context, UChar *text, int32_t length, int fold, int 
             return CIF_ERROR;
         }
     } else {
-        int target_length = LINE_LENGTH(context) - 8;
+        /* leaves room for the folding window, a fold separator or protecting backslash, and the prefix if any */
+        int target_length = LINE_LENGTH(context) - 8 - (prefix ? PREFIX_LENGTH : 0);
         char prefix_text[] = PREFIX;
         int prefix_chars;
         UChar *tok;
